@@ -60,7 +60,7 @@ class Gen:
     # -- form-level choices ------------------------------------------------------
     def setup(self):
         r = self.rng
-        kind = r.choices(['volume', 'surface', 'boundary', 'spacetime'], weights=[10, 2, 2, 2])[0]
+        kind = r.choices(['volume', 'surface', 'boundary', 'spacetime'], weights=[10, 2, 2, 4])[0]
         if kind == 'volume':
             d = r.choice([1, 2, 2, 2, 3]); g = d
         elif kind == 'surface':
@@ -160,6 +160,8 @@ class Gen:
             k = r.choices(['add', 'sub', 'mul', 'div', 'neg', 'pow', 'fn', 'dx', 'inner', 'tr', 'det', 'norm',
                            'vidx', 'midx', 'div_', 'lap', 'dt'],
                           weights=[5, 3, 7, 2, 2, 2, 4, 5, 4, 1, 2, 1, 2, 2, 2, 2, 1])[0]
+        if self.kind == 'spacetime' and not diff and r.random() < 0.25:
+            k = 'dt'
         if k == 'leaf':
             return self.S_leaf(diff)
         if k == 'add':
@@ -182,7 +184,7 @@ class Gen:
         if k == 'dt':
             if self.kind != 'spacetime':
                 return self.S(depth - 1)
-            return ('({0}).dt(%d)' % r.choice([1, 1, 2]), self.bf_scalar())
+            return self.st_mixed()
         if k == 'inner':
             n = r.choice([d, d, self.g, 2, 3])
             return (r.choice(['inner({0}, {1})', 'dot({0}, {1})']), self.Vn(depth - 1, n), self.Vn(depth - 1, n))
@@ -203,6 +205,35 @@ class Gen:
             leaf = self.bf_scalar() if r.random() < 0.7 else self.use('f')
             return ('tr(hess({0}%s))' % self.dparg(), leaf)
         raise AssertionError(k)
+
+    def st_mixed(self):
+        """space-time forms: time derivatives of order 1..3, alone or combined with ONE space derivative
+        (d_x d_t^n: the space-time split of replace_physical_derivs), on basis functions and -- with
+        parametric derivatives, the only ones the code accepts there -- on input fields"""
+        r = self.rng
+        d = self.d
+        T = d - 1
+        n = r.choice([1, 2, 2, 3])
+        k = r.randrange(T)
+        if r.random() < 0.2:
+            # input field, parametric derivatives, total order <= 2 (the derivative arrays stop there)
+            f = self.use('f')
+            return (r.choice(['Dx(Dx({0}, %d, 1, parametric=True), %d, parametric=True)' % (T, k),
+                              'Dx(Dx({0}, %d, parametric=True), %d, 1, parametric=True)' % (k, T),
+                              'Dx({0}, %d, 2, parametric=True)' % T]), f)
+        bf = self.bf_scalar()
+        if self.par:
+            return (r.choice(['Dx({0}, %d, %d, parametric=True)' % (T, n),
+                              'Dx(Dx({0}, %d, %d, parametric=True), %d, parametric=True)' % (T, n, k),
+                              'Dx(Dx({0}, %d, parametric=True), %d, %d, parametric=True)' % (k, T, n),
+                              'Dx(Dx(Dx({0}, %d, parametric=True), %d, parametric=True), %d, %d, parametric=True)' % (k, r.randrange(T), T, n)]), bf)
+        return (r.choice(['({0}).dt(%d)' % n,
+                          'Dx(({0}).dt(%d), %d)' % (n, k),
+                          '(Dx({0}, %d)).dt(%d)' % (k, n),
+                          'grad(({0}).dt(%d))[%d]' % (n, k),
+                          '(grad({0}).dt(%d))[%d]' % (n, k),
+                          'Dx(Dx({0}, %d, %d), %d)' % (T, n, k),
+                          'inner(grad(({0}).dt(%d)), grad({0}))' % n]), bf)
 
     # -- vectors of length n -----------------------------------------------------
     def Vn(self, depth, n, diff=False):
@@ -370,6 +401,17 @@ LIBRARY = [
     'V = mass_vf(1)', 'V = mass_vf(2)', 'V = mass_vf(3)', 'V = stiffness_vf(1)', 'V = stiffness_vf(2)',
     'V = stiffness_vf(3)', 'V = heat_st_vf(2)', 'V = heat_st_vf(3)', 'V = wave_st_vf(2)', 'V = wave_st_vf(3)',
     'V = divdiv_vf(2)', 'V = divdiv_vf(3)', 'V = L2functional_vf(2)', 'V = L2functional_vf(3, physical=True)',
+    # space-time split with repeated time derivatives of a space derivative (dims 2 and 3, u and v)
+    'V = VForm(3, spacetime=True)\nu, v = V.basisfuns()\nV.add(inner(grad(u.dt(2)), grad(v)) * dx)',
+    'V = VForm(2, spacetime=True)\nu, v = V.basisfuns()\nV.add(inner(grad(u.dt(2)), grad(v)) * dx)',
+    'V = VForm(3, spacetime=True)\nu, v = V.basisfuns()\nV.add(inner(grad(u).dt(2), grad(v).dt(3)) * dx)',
+    'V = VForm(2, spacetime=True)\nu, v = V.basisfuns()\nV.add((Dx(Dx(u, 1, 3), 0) * v.dt(2) + u.dt(3) * Dx(v.dt(2), 0)) * dx)',
+    'V = VForm(3, spacetime=True, arity=1)\nv = V.basisfuns()\nV.add((Dx(v.dt(2), 1) + Dx(v.dt(3), 0) + v.dt(4)) * dx)',
+    'V = VForm(2, spacetime=True)\nu, v = V.basisfuns(components=(2, 2))\nV.add(inner(Dx(u.dt(2), 0), Dx(v, 0).dt(2)) * dx)',
+    'V = VForm(3, spacetime=True)\nu, v = V.basisfuns()\nf = V.input("f")\n'
+    'V.add((Dx(Dx(f, 2, parametric=True), 0, parametric=True) * u + Dx(f, 2, 2, parametric=True) * Dx(u.dt(2), 1)) * v * dx)',
+    'V = VForm(3, spacetime=True)\nu, v = V.basisfuns()\n'
+    'V.add(Dx(Dx(Dx(u, 0, parametric=True), 1, parametric=True), 2, 2, parametric=True) * Dx(Dx(v, 2, 3, parametric=True), 1, parametric=True) * dx)',
     # documented examples of docs/source/guide/vforms.rst and the Laplace-type forms with Hessians
     'V = VForm(2)\nu, v = V.basisfuns()\nV.add(inner(grad(u), grad(v)) * dx)',
     'V = VForm(3)\nu, v = V.basisfuns()\nV.add(inner(grad(u), grad(v)) * dx)',
